@@ -554,7 +554,13 @@ static void runOp(Hist& h, const std::string& name, const Args& a, std::vector<i
     if (c.NumVert() > 200) throw SkipOp{"cs too large"};
     long n = A(2);
     if (n < 3 || n > 12) throw BadOp{"revolve segments out of range"};
-    h.putM(d, Manifold::Revolve(c.ToPolygons(), (int)n, 15.0 * A(3)), "new", 4 * (long)c.NumVert() * n);
+    Polygons polys = c.ToPolygons();
+    if (a.size() > 4 && a[4] != 0) {  // optional 5th field: shift the profile into x > 0 (a profile that crosses the
+      Rect b = c.Bounds();            // axis makes Revolve produce a mesh on which Refine/SmoothOut crash: known defect)
+      const double dx = 0.25 - b.min.x;
+      if (std::isfinite(dx)) for (auto& poly : polys) for (auto& v : poly) v.x += dx;
+    }
+    h.putM(d, Manifold::Revolve(polys, (int)n, 15.0 * A(3)), "new", 4 * (long)c.NumVert() * n);
     return;
   }
   // ------------------------------------------------ CrossSection constructors
@@ -922,8 +928,10 @@ static Impl makeA(int menu) {
       break;
     }
     case 3: m = Manifold::Tetrahedron().SmoothOut(60, 0.25).Refine(2).CalculateNormals(0, 45).SmoothByNormals(0); break;
-    case 4: m = Manifold::Cube().SetProperties(4, [](double* p, vec3, const double*) { for (int i = 0; i < 4; ++i) p[i] = 1 + i; }); break;
-    default: m = meshInput(1).SetProperties(5, [](double* p, vec3 v, const double*) { for (int i = 0; i < 5; ++i) p[i] = std::floor(2 * v[i % 3]); }); break;
+    // 4/5: several property vertices per geometric vertex (sharp normals) that are then given equal values,
+    // so that DedupePropVerts has something to merge
+    case 4: m = Manifold::Cube().CalculateNormals(0, 30).SetProperties(4, [](double* p, vec3, const double*) { for (int i = 0; i < 4; ++i) p[i] = 1 + i; }); break;
+    default: m = Manifold::Sphere(1.0, 6).CalculateNormals(0, 10).SetProperties(3, [](double* p, vec3 v, const double*) { for (int i = 0; i < 3; ++i) p[i] = std::floor(2 * v[i]); }); break;
   }
   Impl a = *m.GetCsgLeafNode().GetImpl();
   a.halfedge_.MakeUnique();  // independent of the Manifold that produced it
@@ -975,7 +983,11 @@ static void implCase(const std::string& id, const std::string& method, int argv)
   std::string na;
   try {
     if (method == "DedupePropVerts") B.DedupePropVerts();
-    else if (method == "SortGeometry") B.SortGeometry();
+    else if (method == "SortGeometry") {  // permute the axes first so that the sort has something to do
+      for (auto& v : B.vertPos_) v = vec3(v.z, v.x, v.y);
+      B.CalculateBBox();
+      B.SortGeometry();
+    }
     else if (method == "Subdivide") B.Subdivide(one, false);
     else if (method == "Refine") B.Refine(one, false, nullptr);
     else if (method == "CleanupTopology") B.CleanupTopology();
